@@ -26,8 +26,9 @@ def run_unit(cid, fdef_override=None, verbose=False):
     c = REGISTRY[cid]
     unit = Unit(c, fdef_override)
     res = explore(unit)
+    from .vc import discharge_all
+    discharge_all(res.obligations)
     for ob in res.obligations:
-        discharge(ob, ob.detail)
         if verbose:
             print("  %-10s %s  (%.3fs %s)" % (ob.status, ob.oid, ob.time, ob.backend))
     return res
